@@ -12,6 +12,19 @@ PROPS = {
         "suites": ["pure-ctl", "pure-graph"],
         "assumptions": [],
     },
+    "C04": {
+        "lean": ["WorkflowModel.Props.C04"],
+        "suites": ["corpus", "sim-random", "sim-adversary"],
+        "modelled": ["strconv.ParseInt of the record_version header (canonical decimal renderings only)"],
+        "assumptions": ["reads are current for the 'acted only when current' clause; with a replica lagging at exactly the event's version the clause fails on the unchanged tree (known finding F16)"],
+    },
+    "C05": {
+        "lean": ["WorkflowModel.Props.C05"],
+        "suites": ["corpus", "sim-random"],
+        "modelled": ["protobuf round trip of the outbox record (sampled by the relay monitor: the event sent must equal the decoded entry)",
+                     "the reference store contract (Store = record + one outbox entry atomically); bundled stores are tied to it by C17/C18"],
+        "assumptions": ["outbox lookup limit >= 1 for progress"],
+    },
     "C06": {
         "lean": ["WorkflowModel.Props.C06"],
         "suites": ["pure-routing"],
